@@ -148,7 +148,8 @@ def run(chk):
         built = [build_one(j) for j in jobs]     # the generator is not thread safe; gcc is quick
         chk.coverage["programs"] = sum(1 for b in built if b[3])
         for (text, outdir), (fcp, im, pieces, exe, err) in zip(jobs, built):
-            sterm, iterm = to_coq.schema(fcp), to_coq.impl(im)
+            ref = serde_run.parse(text).unwrap()      # the model is given the schema as written, not the object the generator held
+            sterm, iterm = to_coq.schema(ref), to_coq.impl(next(i for i in ref.get_matching_impls("can") if i.name == "Msg"))
             odd_u = any(type(p.type) is T.UnsignedType and p.type.get_length() not in (8, 16, 32, 64) for p in pieces)
             odd_i = any(type(p.type) is T.SignedType and p.type.get_length() not in (8, 16, 32, 64) for p in pieces)
             if exe is None:
